@@ -34,6 +34,10 @@ struct DocSpec {
     commodity: Option<&'static str>,
     operator: Option<&'static str>,
     date_format: Option<&'static str>,
+    /// which optional columns the document's `format.fields` maps: 0 = category and
+    /// secondary_commodity, 1 = no category, 2 = no secondary_commodity (a `format` replaces an
+    /// earlier one as a whole; a matcher on an unmapped field has nothing to match)
+    fields: u8,
     encoding: bool,
     rules: Vec<RuleSpec>,
 }
@@ -68,7 +72,7 @@ const PAYEE_PATTERNS: &[&str] = &[
     "^ATM ",
     " Shop$",
 ];
-const CATEGORY_PATTERNS: &[&str] = &["Travel|Cash", "^Groceries$", "income", "Misc"];
+const CATEGORY_PATTERNS: &[&str] = &["Travel|Cash", "^Groceries$", "income", "Misc", "^(?:Misc)?$", ".*"];
 /// `secondary_commodity` patterns (this matcher sorts after `payee`, so in one AND-map the payee
 /// matcher, captures included, is evaluated before it)
 const SECONDARY_PATTERNS: &[&str] = &["EUR", "^JPY$", "USD|EUR", "^$", "."];
@@ -146,7 +150,13 @@ fn doc_yaml(d: &DocSpec) -> String {
         y.push_str(&format!("operator: {}\n", yaml_str(o)));
     }
     if let Some(f) = d.date_format {
-        y.push_str(&format!("format:\n  date: {}\n  fields:\n    date: 1\n    amount: 2\n    payee: 3\n    category: 4\n    secondary_commodity: 5\n", yaml_str(f)));
+        y.push_str(&format!("format:\n  date: {}\n  fields:\n    date: 1\n    amount: 2\n    payee: 3\n", yaml_str(f)));
+        if d.fields != 1 {
+            y.push_str("    category: 4\n");
+        }
+        if d.fields != 2 {
+            y.push_str("    secondary_commodity: 5\n");
+        }
     }
     if !d.rules.is_empty() {
         y.push_str("rewrite:\n");
@@ -166,6 +176,7 @@ struct Merged {
     commodity: &'static str,
     operator: Option<&'static str>,
     date_format: &'static str,
+    fields: u8,
     rules: Vec<RuleSpec>,
 }
 
@@ -173,7 +184,7 @@ fn merge(docs: &[DocSpec], file_path: &str) -> Option<Merged> {
     let mut matched: Vec<&DocSpec> = docs.iter().filter(|d| file_path.contains(&d.path)).collect();
     matched.sort_by_key(|d| d.path.len()); // stable
     let first = matched.first()?;
-    let mut m = Merged { path: first.path.clone(), account: "", account_type: "", commodity: "", operator: None, date_format: "", rules: vec![] };
+    let mut m = Merged { path: first.path.clone(), account: "", account_type: "", commodity: "", operator: None, date_format: "", fields: 0, rules: vec![] };
     for d in matched {
         m.path = d.path.clone();
         if let Some(a) = d.account {
@@ -190,6 +201,7 @@ fn merge(docs: &[DocSpec], file_path: &str) -> Option<Merged> {
         }
         if let Some(f) = d.date_format {
             m.date_format = f;
+            m.fields = d.fields;
         }
         m.rules.extend(d.rules.iter().cloned());
     }
@@ -217,7 +229,7 @@ struct Folded {
     fired: Vec<usize>,
 }
 
-fn fold(rules: &[RuleSpec], rec: &Record) -> Folded {
+fn fold(rules: &[RuleSpec], rec: &Record, fields: u8) -> Folded {
     let mut f = Folded { payee: rec.payee.to_string(), code: None, account: None, cleared: false, fired: vec![] };
     for (ri, r) in rules.iter().enumerate() {
         // first AND-map all of whose fields match, looking at the payee as rewritten so far
@@ -240,13 +252,14 @@ fn fold(rules: &[RuleSpec], rec: &Record) -> Folded {
                         None => continue 'or,
                     },
                     "secondary_commodity" => {
-                        // (an empty cell is matched like any other text, as for the category)
-                        if !re.is_match(rec.secondary) {
+                        // (an empty cell is matched like any other text, as for the category; an
+                        // unmapped field is absent and matches nothing)
+                        if fields == 2 || !re.is_match(rec.secondary) {
                             continue 'or;
                         }
                     }
                     _ => {
-                        if !re.is_match(rec.category) {
+                        if fields == 1 || !re.is_match(rec.category) {
                             continue 'or;
                         }
                     }
@@ -298,6 +311,7 @@ impl Check for C17 {
             commodity: Some("CHF"),
             operator: if rng.chance(1, 2) { Some("Generic Bank") } else { None },
             date_format: Some("%Y-%m-%d"),
+            fields: 0,
             encoding: true,
             rules: (0..rng.usize(4)).map(|_| gen_rule(&mut rng)).collect(),
         }];
@@ -309,9 +323,20 @@ impl Check for C17 {
                 commodity: if rng.chance(1, 3) { Some(rng.pick_str(&["USD", "EUR", "JPY"])) } else { None },
                 operator: if rng.chance(1, 3) { Some(rng.pick_str(&["Some Operator", "Branch Office", "Card Services (fee)"])) } else { None },
                 date_format: if rng.chance(1, 3) { Some(rng.pick_str(&["%Y/%m/%d", "%d.%m.%Y"])) } else { None },
+                fields: *rng.pick(&[0u8, 0, 1, 2]),
                 encoding: rng.chance(1, 4),
                 rules: (0..rng.usize(4)).map(|_| gen_rule(&mut rng)).collect(),
             });
+        }
+        // a document may restate, word for word, a rule that another document (or itself) already has
+        for k in 0..docs.len() {
+            if rng.chance(1, 4) {
+                let all: Vec<RuleSpec> = docs.iter().flat_map(|d| d.rules.iter().cloned()).collect();
+                if !all.is_empty() {
+                    let r = rng.pick(&all).clone();
+                    docs[k].rules.push(r);
+                }
+            }
         }
         // document order in the file is random (the base document is not necessarily first)
         rng.shuffle(&mut docs);
@@ -404,7 +429,7 @@ impl Check for C17 {
             return;
         }
         for (r, t) in records.iter().zip(imp.txns.iter()) {
-            let f = fold(&m.rules, r);
+            let f = fold(&m.rules, r, m.fields);
             rec.count(&format!("rules-fired:{}", f.fired.len().min(3)));
             let counter: Vec<_> = t.posts.iter().filter(|p| p.account != m.account).collect();
             let want_account = f.account.unwrap_or(if r.amount_cents > 0 { "Income:Unknown" } else { "Expenses:Unknown" });
